@@ -15,7 +15,7 @@ BATCH = 200
 RULE = ("fault-free configuration of the bus: a device driven by the real NMEA2000Encoder -> encode_ebyte / encode_usb / "
         "encode_yacht_devices -> in-order lossless link -> real decoder, frame by frame.  Sweep: every payload length "
         "0..223 x every state 0..7 of the sender's sequence counter (complete; x 3 wire formats in thorough) through the "
-        "public encode path with an injected raw codec on PGN 130816.  Seeded histories: 1-40 consecutive messages on "
+        "public encode path with an injected raw codec on PGN 130816.  Seeded histories: 1-40 (sometimes 70-200) consecutive messages on "
         "one encoder/decoder pair mixing raw lengths with every encodable fast-packet definition (codec fix-points).  "
         "Non-trivial = history with >= 2 fast-packet messages (counter advances) or a sweep case.  Distinct = distinct "
         "sha256 of (history, frames, results).")
@@ -61,7 +61,7 @@ def raw_payload(rng, L):
 
 def gen(rng, idx, tier):
     fmt = rng.choice(["ebyte", "usb", "yd"])
-    n = rng.choice([1, 2, 5, 9, 17, 40])
+    n = rng.choice([1, 2, 5, 9, 17, 40]) if rng.random() < 0.97 else rng.choice([70, 130, 200])
     out = []
     for _ in range(n):
         if rng.random() < 0.5:
